@@ -2,6 +2,7 @@
  * E2 over (class x implementing family x reachable state x continuation) for dup, and over all
  * pairs and triples of pool objects for the comparison laws; spif_obj_comp additionally over
  * synthetic addresses whose differences exceed 2^31 and 2^32. */
+#include <sys/resource.h>
 #include "classes.h"
 
 typedef struct { int ci, fam, bi, mode; } dc_t;
@@ -14,7 +15,7 @@ static void build_tables(void)
     size_t cap = 40000; DC = malloc(cap * sizeof *DC); NDC = 0;
     for (int ci = 0; ci < NCLASSES; ci++) { cls_t *c = &CLASSES[ci];
         for (int f = 0; f < (c->kind ? 3 : 1); f++) for (int bi = 0; bi < c->n_build; bi++) for (int m = 0; m < 3 + 2 * c->n_mut; m++) DC[NDC++] = (dc_t) { ci, f, bi, m }; }
-    cap = 200000; CC = malloc(cap * sizeof *CC); NCC = 0;
+    cap = 400000; CC = malloc(cap * sizeof *CC); NCC = 0;
     for (int ci = 0; ci < NCLASSES; ci++) { cls_t *c = &CLASSES[ci];
         for (int f = 0; f < (c->kind ? 3 : 1); f++) {
             for (int x = 0; x < c->n_build; x++) for (int y = 0; y < c->n_build; y++) CC[NCC++] = (cc_t) { ci, f, x, y, -1 };
@@ -217,6 +218,35 @@ static void eq_case(uint64_t idx, void *ctx)
     mc_nontrivial();
     mc_outcome(mc_hash_str(before) + idx);
 }
+/* ------------------------------------------------------------------ long containers: dup, comp with the copy and del of a list, vector and map of 300000 elements in each family */
+static void hc_desc(uint64_t idx, void *ctx, char *b, size_t n) { static const char *kn[3] = { "list", "vector", "map" }, *fn[3] = { "array", "linked_list", "dlinked_list" }; (void) ctx; snprintf(b, n, "%s %s of %d elements: dup, count of the copy, comp(x, x), delete both (stack limit 8 MiB)", fn[idx % 3], kn[idx / 3], (idx % 3 == 0 || idx >= 6) ? 20000 : 300000); }
+static void hc_case(uint64_t idx, void *ctx)
+{
+    int kind = (int) (idx / 3) + 1; (void) ctx; g_family = (int) (idx % 3);
+    const int n = (g_family == 0 || kind == KIND_MAP) ? 20000 : 300000;          /* the array family shifts its block for every sorted insert, the maps look through all their pairs for every set: shorter ones do there */
+    const char *shape = "300000 elements"; mc_set_shape(shape);
+    { struct rlimit rl; if (!getrlimit(RLIMIT_STACK, &rl) && (rl.rlim_cur == RLIM_INFINITY || rl.rlim_cur > (8u << 20))) { rl.rlim_cur = 8u << 20; setrlimit(RLIMIT_STACK, &rl); } }
+    spif_obj_t c = new_container(kind); char t[16];
+    for (int i = 0; i < n; i++) {
+        int k = (kind == KIND_LIST || g_family == 0) ? i : n - 1 - i;            /* sorted linked containers are filled from the greatest key down (each insert lands at the head) */
+        snprintf(t, sizeof t, "e%06d", k);
+        if (kind == KIND_LIST) { if (g_family == 1) { snprintf(t, sizeof t, "e%06d", n - 1 - i); SPIF_LIST_PREPEND(c, S_(t)); } else SPIF_LIST_APPEND(c, S_(t)); }
+        else if (kind == KIND_VECTOR) SPIF_VECTOR_INSERT(c, S_(t));
+        else { spif_obj_t K = S_(t), V = S_("v"); SPIF_MAP_SET(c, K, V); SPIF_OBJ_DEL(K); SPIF_OBJ_DEL(V); }
+    }
+    spif_obj_t d = SPIF_OBJ_DUP(c);
+    if (!d || d == c) FAIL("dup", "model:return", shape, "dup of a long container returned %s", d ? "the object itself" : "NULL");
+    else {
+        int cnt = kind == KIND_LIST ? (int) SPIF_LIST_COUNT(d) : (kind == KIND_VECTOR ? (int) SPIF_VECTOR_COUNT(d) : (int) SPIF_MAP_COUNT(d));
+        if (cnt != n) FAIL("dup", "model:value", shape, "the copy counts %d elements", cnt);
+        if (SPIF_OBJ_CLASS(d) != SPIF_OBJ_CLASS(c)) FAIL("dup", "model:class", shape, "the copy is of another class");
+        if (!SPIF_CMP_IS_EQUAL(SPIF_OBJ_COMP(c, c))) FAIL("comp", "model:reflexivity", shape, "comp(x,x) is not EQUAL");
+        SPIF_OBJ_DEL(d);
+    }
+    SPIF_OBJ_DEL(c);
+    mc_nontrivial();
+    mc_outcome(idx);
+}
 /* ------------------------------------------------------------------ string operations on objects of the classes derived from str: the object stays what it is */
 static const char *PC_TEXT[] = { " \t  ", "  http://h/p  ", "a.c", "", NULL };       /* NULL: no text at all (as after new()) */
 static const char *PC_OP[] = { "trim()", "clear('x')", "reverse()", "upcase()", "downcase()", "append_char('z')", "splice(0, 1, NULL)", "append_from_ptr(\" \")+trim()" };
@@ -253,7 +283,7 @@ int main(int argc, char **argv)
 {
     mc_init("C05", argc, argv);
     libast_debug_level = (unsigned) mc_dlevel();        /* --dlevel=N: the whole run at runtime debug level N (default 0) */
-    if (mc_arg("only", NULL) && !strcmp(mc_arg("only", ""), "huge")) { mc_e2_level("huge_mbuff", 1, 5, hm_case, hm_desc, NULL); return mc_finish(); }
+    if (mc_arg("only", NULL) && !strcmp(mc_arg("only", ""), "huge")) { mc_e2_level("huge_mbuff", 1, 5, hm_case, hm_desc, NULL); mc_e2_level("long_containers", 300000, 9, hc_case, hc_desc, NULL); return mc_finish(); }
     build_tables();
     mc_info("alphabet", "classes str, ustr, mbuff, objpair, tok, url, regexp and list/vector/map x {array, linked_list, dlinked_list}; per class a pool of reachable states (empty, slack after a shrinking splice, "
             "NULL placeholders, key-only pair, tokenizer before eval, URL after unparse ...); dup cases: %llu = states x (1 + 2 x mutators + 2 deletion orders); comparison cases: %llu pairs+triples; %d synthetic address pairs",
